@@ -1,8 +1,222 @@
-(* C11 -- property theorems.  Statements + `exact` only; proofs live in Proofs/C11*.v. *)
-From PV Require Import Lib.Base Lib.Round Gen.C11_Tables Model.C11 Proofs.C11.
-From Coq Require Import QArith Qabs.
+(* C11 -- adding measures and tying notes normalise notation without changing what sounds:
+   property theorems.  Statements + `exact` only; proofs live in Proofs/C11*.v.
+   Every theorem quantifies over all inputs (any number of signatures, measures, notes, any
+   divisions); the only finite-domain statements are the `_refuted` witnesses and the examples.
+   The model (Model/C11.v) is tied to partitura's code by the correspondence run of
+   harness/props/c11.py on every check (same definitions, evaluated by vm_compute). *)
+From PV Require Import Lib.Base Lib.Round Gen.C11_Tables Model.C11 Model.C11_Spec
+  Proofs.C11_lib Proofs.C11_meas Proofs.C11_est Proofs.C11.
+From Coq Require Import QArith Qabs Sorting.Sorted.
 #[local] Open Scope Z_scope.
 
+(* ------------------------------------------------------------------ O1: add_measures *)
+
+(* the model's fuel always suffices *)
+Theorem add_measures_total : forall div tsigs first last ex,
+  pre tsigs first last ex div -> exists ms, add_measures div tsigs first last ex = Some ms.
+Proof. exact add_measures_total_lemma. Qed.
+Print Assumptions add_measures_total.
+
+(* the measures afterwards, in the order the loop meets or makes them, run from the first to the
+   last point without gap or overlap, each non-empty *)
+Theorem measures_tile : forall div tsigs first last ex ms,
+  pre tsigs first last ex div -> add_measures div tsigs first last ex = Some ms ->
+  chain_from first (spans ms) last.
+Proof. exact measures_tile_lemma. Qed.
+Print Assumptions measures_tile.
+
+(* ... so every time of [first, last) lies in exactly one measure *)
+Theorem measures_partition : forall div tsigs first last ex ms,
+  pre tsigs first last ex div -> add_measures div tsigs first last ex = Some ms ->
+  forall x, first <= x < last ->
+    exists m, In m (spans ms) /\ fst m <= x < snd m
+              /\ forall m', In m' (spans ms) -> fst m' <= x < snd m' -> m' = m.
+Proof. exact measures_partition_lemma. Qed.
+Print Assumptions measures_partition.
+
+(* existing measures are left in place: each is among the measures afterwards with its extent *)
+Theorem existing_measures_kept : forall div tsigs first last ex ms,
+  pre tsigs first last ex div -> ex_sorted ex ->
+  add_measures div tsigs first last ex = Some ms ->
+  forall x, In x ex -> first <= fst x < last ->
+  exists m, In m ms /\ m_old m = true /\ span m = x.
+Proof. exact existing_kept_lemma. Qed.
+Print Assumptions existing_measures_kept.
+
+(* ... and nothing else is passed off as an existing measure *)
+Theorem old_measures_are_existing : forall div tsigs first last ex ms,
+  pre tsigs first last ex div -> add_measures div tsigs first last ex = Some ms ->
+  forall m, In m ms -> m_old m = true -> In (span m) ex.
+Proof. exact measures_old_lemma. Qed.
+Print Assumptions old_measures_are_existing.
+
+(* all measures, old and new, are numbered 1, 2, 3, ... in time order *)
+Theorem measures_numbered : forall div tsigs first last ex ms,
+  pre tsigs first last ex div -> add_measures div tsigs first last ex = Some ms ->
+  map m_num ms = zrange 1 (List.length ms).
+Proof. exact measures_numbered_lemma. Qed.
+Print Assumptions measures_numbered.
+
+(* a new measure lies in the stretch of one signature (no other signature starts strictly inside
+   that stretch), and ends where a full bar of that signature ends (nearest division, at least
+   one division, not beyond the last point or the stretch) -- or earlier, exactly at the start
+   of an existing measure *)
+Theorem new_measure_length : forall div tsigs first last ex ms,
+  pre tsigs first last ex div -> add_measures div tsigs first last ex = Some ms ->
+  forall m, In m ms -> m_old m = false ->
+  exists s, In s (stretches div tsigs first last)
+            /\ stretch_in_force div (ts_rows tsigs first) s
+            /\ fst (st_span s) <= m_start m < snd (st_span s) /\ snd (st_span s) <= last
+            /\ new_ok ex (st_bl s) last (snd (st_span s)) m.
+Proof. exact new_measure_length_full. Qed.
+Print Assumptions new_measure_length.
+
+(* for a bar that is a whole number B of divisions: a new measure is B long, or it is shorter
+   and ends at the next signature / the last point / the start of an existing measure *)
+Theorem new_measure_length_integral : forall div tsigs first last ex ms,
+  pre tsigs first last ex div -> add_measures div tsigs first last ex = Some ms ->
+  forall m, In m ms -> m_old m = false ->
+  exists s, In s (stretches div tsigs first last)
+    /\ stretch_in_force div (ts_rows tsigs first) s
+    /\ fst (st_span s) <= m_start m < snd (st_span s)
+    /\ forall B, 1 <= B -> (st_bl s == inject_Z B)%Q ->
+         m_end m - m_start m = B
+         \/ (m_end m - m_start m < B
+             /\ (m_end m = snd (st_span s) \/ m_end m = last \/ exists x, In x ex /\ fst x = m_end m)).
+Proof. exact new_measure_length_integral_lemma. Qed.
+Print Assumptions new_measure_length_integral.
+
+(* the hypotheses are satisfiable: two signatures, two existing measures, cuts of all three kinds *)
+Example measures_example :
+  (pre ex_tsigs 0 40 ex_existing 4 /\ ex_sorted ex_existing) /\
+  add_measures 4 ex_tsigs 0 40 ex_existing
+  = Some [(0, 5, 1, false); (5, 9, 2, true); (9, 21, 3, false); (21, 24, 4, false);
+          (24, 30, 5, false); (30, 33, 6, true); (33, 40, 7, false)].
+Proof. exact (conj ex_pre ex_result). Qed.
+Print Assumptions measures_example.
+
+(* ------------------------------------------------------------------ O2/O3: tie_notes *)
+
+(* splitting [s, e) at any cut points keeps the summed duration *)
 Theorem split_sum : forall cuts s e, total_dur (pieces s cuts e) = e - s.
 Proof. exact total_dur_pieces. Qed.
 Print Assumptions split_sum.
+
+(* both stages of tie_notes keep what sounds (pitch, voice, staff, onset, summed duration) of
+   every chain -- including chains that were tied before (several input pieces) *)
+Theorem tie_preserves_sounding : forall bars div c, sounding (tie_chain bars div c) = sounding c.
+Proof. exact tie_sounding. Qed.
+Print Assumptions tie_preserves_sounding.
+
+(* with measures tiling [a, b) and every input piece inside [a, b]: afterwards every piece is
+   non-empty and lies within one measure *)
+Theorem tie_within_measure : forall ms a b bars div ps,
+  0 < div -> chain_from a ms b -> bars = map fst ms ->
+  Forall (fun p => a <= fst p /\ fst p < snd p /\ snd p <= b) ps ->
+  Forall (fun q => within_one ms q /\ fst q < snd q) (tie_pieces bars div ps).
+Proof. exact tie_pieces_wf_lemma. Qed.
+Print Assumptions tie_within_measure.
+
+(* a contiguous chain stays contiguous *)
+Theorem tie_chain_contiguous : forall bars div ps, contiguous ps -> contiguous (tie_pieces bars div ps).
+Proof. exact tie_contiguous. Qed.
+Print Assumptions tie_chain_contiguous.
+
+(* ... and keeps its one pitch, voice and staff *)
+Theorem tie_chain_identity : forall bars div p v st ps,
+  exists ps', tie_chain bars div (p, v, st, ps) = (p, v, st, ps').
+Proof. exact tie_chain_identity_lemma. Qed.
+Print Assumptions tie_chain_identity.
+
+(* candidate split points lie strictly inside the note on the grid of the smallest unit *)
+Theorem order_splits_on_grid : forall s e u x,
+  0 < u -> In x (order_splits s e u) -> s < x < e /\ (u | x).
+Proof. exact order_splits_on_grid_lemma. Qed.
+Print Assumptions order_splits_on_grid.
+
+(* a split found by find_tie_split tiles [s, e) with at most four non-empty pieces, each of
+   which has a single notated value *)
+Theorem find_tie_split_sound : forall s e div cuts,
+  0 < div -> s < e -> find_tie_split s e div = Some (Some cuts) ->
+  chain_from s (pieces s cuts e) e
+  /\ Forall (fun p => has_sym (estimate (snd p - fst p) div) = true) (pieces s cuts e)
+  /\ (List.length cuts <= 3)%nat.
+Proof. exact find_tie_split_sound_lemma. Qed.
+Print Assumptions find_tie_split_sound.
+
+(* after tie_notes a piece has a notated value, or it is a stage-1 piece the splitter could not
+   split (or the model's fuel ran out on it) *)
+Theorem tie_outcome : forall bars div ps q,
+  0 < div -> StronglySorted Z.lt bars -> Forall (fun p => fst p < snd p) ps ->
+  In q (tie_pieces bars div ps) ->
+  has_sym (piece_sym div q) = true
+  \/ (In q (stage1_pieces bars ps)
+      /\ ((forall cuts, find_tie_split (fst q) (snd q) div <> Some (Some cuts))
+          \/ estimate (snd q - fst q) div = EFuel)).
+Proof. exact tie_outcome_lemma. Qed.
+Print Assumptions tie_outcome.
+
+(* the symbolic duration a piece carries evaluates to its numeric duration -- when the estimator
+   hit the value exactly; the eps tolerance is delimited below *)
+Theorem assigned_symbolic_exact : forall div q sd,
+  0 < div -> fst q < snd q -> piece_sym div q = ESome sd -> exact_hit (snd q - fst q) div = true ->
+  exists v, sym_to_num sd div = Some v /\ (v == inject_Z (snd q - fst q))%Q.
+Proof. exact assigned_symbolic_exact_lemma. Qed.
+Print Assumptions assigned_symbolic_exact.
+
+Example tie_example :
+  tie_chain [0; 5; 9; 21; 24; 30; 33] 4 (60, 1, 1, [(3, 26)])
+  = (60, 1, 1, [(3, 5); (5, 9); (9, 21); (21, 24); (24, 26)]).
+Proof. exact ex_tie. Qed.
+Print Assumptions tie_example.
+
+(* ------------------------------------------------------------------ O4: the estimator *)
+
+(* estimate then convert back returns the numeric duration, for every d and every divisions
+   value, whenever the estimator's match was exact *)
+Theorem estimate_exact : forall d div sd,
+  0 < d -> 0 < div -> estimate d div = ESome sd -> exact_hit d div = true ->
+  exists v, sym_to_num sd div = Some v /\ (v == inject_Z d)%Q.
+Proof. exact estimate_exact_lemma. Qed.
+Print Assumptions estimate_exact.
+
+(* the boundary of the tolerance: a table value is reported only within eps (a quarter) of d/div,
+   and converts back to div * that table value *)
+Theorem estimate_table_within_eps : forall d div ty dots,
+  estimate d div = ESome (ty, dots, None) ->
+  exists tv v, table_value (ty, dots, None) = Some tv
+    /\ (Qabs (inject_Z d / inject_Z div - tv) < eps_default)%Q
+    /\ sym_to_num (ty, dots, None) div = Some v /\ (v == inject_Z div * tv)%Q.
+Proof. exact estimate_table_within_eps_lemma. Qed.
+Print Assumptions estimate_table_within_eps.
+
+(* ... and a tuplet n : a only when n * S / (d/div) is within eps of the integer a *)
+Theorem estimate_tuplet_within_eps : forall d div ty dots a n,
+  estimate d div = ESome (ty, dots, Some (a, n)) ->
+  dots = 0 /\ n >= 2 /\
+  exists S, S = qnth straight_durs (count_lt straight_durs (inject_Z d / inject_Z div))
+    /\ a = round_half_even (inject_Z n * S / (inject_Z d / inject_Z div))
+    /\ (Qabs (inject_Z n * S / (inject_Z d / inject_Z div) - inject_Z a) <= eps_default)%Q.
+Proof. exact estimate_tuplet_within_eps_lemma. Qed.
+Print Assumptions estimate_tuplet_within_eps.
+
+(* the strict reading of O4 fails inside divisions 1..960 (known findings C11-K1, C11-K2):
+   (15, 950) -> 256th and (1007, 480) -> whole 143:75 do not convert back *)
+Theorem estimate_eps_refuted :
+  exists d div sd v, 1 <= div <= 960 /\ 0 < d /\ estimate d div = ESome sd /\ sym_to_num sd div = Some v
+                     /\ Qeq_bool v (inject_Z d) = false.
+Proof. exact estimate_eps_refuted_lemma. Qed.
+Print Assumptions estimate_eps_refuted.
+
+Theorem estimate_tuplet_eps_refuted :
+  exists d div sd v, 1 <= div <= 960 /\ 0 < d /\ estimate d div = ESome sd /\ sym_to_num sd div = Some v
+                     /\ Qeq_bool v (inject_Z d) = false.
+Proof. exact estimate_tuplet_eps_refuted_lemma. Qed.
+Print Assumptions estimate_tuplet_eps_refuted.
+
+(* the reflected tables agree with each other: SYM_DURS[i] denotes DURS[i] through LABEL_DURS and
+   DOT_MULTIPLIERS, SYM_STRAIGHT_DURS[k] denotes STRAIGHT_DURS[k] (complete tables, recomputed
+   from the source on every run) *)
+Theorem tables_consistent : table_consistent = true /\ straight_consistent = true.
+Proof. exact (conj table_consistent_ok straight_consistent_ok). Qed.
+Print Assumptions tables_consistent.
